@@ -310,3 +310,37 @@ def portfolio(smt_body, timeout_s, names=None, solvers=None, workdir=None):
             except OSError:
                 pass
     return status, env, by, time.time() - t0, detail
+
+
+def pin(cons, rounds=3):
+    """substitute path equalities `x == numeral` into the other constraints (kept themselves, so models stay complete)"""
+    cons = list(cons)
+    for _ in range(rounds):
+        subs = {}
+        for c in cons:
+            if z3.is_not(c) or z3.is_and(c):
+                c = z3.simplify(c)
+            for c in (c.children() if z3.is_and(c) else [c]):
+              if z3.is_eq(c) and c.num_args() == 2:
+                a, b = c.arg(0), c.arg(1)
+                if z3.is_rational_value(a) or z3.is_algebraic_value(a):
+                    a, b = b, a
+                if z3.is_const(a) and a.decl().kind() == z3.Z3_OP_UNINTERPRETED and z3.is_rational_value(b) and a.sort() == b.sort():
+                    subs.setdefault(a.get_id(), (a, b))
+        if not subs:
+            break
+        pairs = list(subs.values())
+        keep = [a == b for a, b in pairs]
+        new = []
+        changed = False
+        for c in cons:
+            c2 = z3.simplify(z3.substitute(c, *pairs))
+            if z3.is_true(c2):
+                continue
+            if not c2.eq(c):
+                changed = True
+            new.append(c2)
+        cons = keep + new
+        if not changed:
+            break
+    return cons
